@@ -143,8 +143,9 @@ def key_obligations(fw):
                 fw.problems.append('%s: model disagreement: solver model %s does not reproduce natively (%s)' % (qn, [hex(a) for a in addrs], out.strip()))
             else:
                 what = 'two different pairs of variable addresses share a cache key' if qn == 'key-injective' else 'the cache key depends on the order of the two variables'
-                os.makedirs(os.path.join(vfw.VERIF, 'replays'), exist_ok=True)
-                path_r = os.path.join(vfw.VERIF, 'replays', 'C18-%s-%s.json' % (qn, hashlib.sha1(repr(addrs).encode()).hexdigest()[:8]))
+                rdir = os.environ.get('VERIF_REPLAY_DIR', os.path.join(vfw.VERIF, 'replays'))
+                os.makedirs(rdir, exist_ok=True)
+                path_r = os.path.join(rdir, 'C18-%s-%s.json' % (qn, hashlib.sha1(repr(addrs).encode()).hexdigest()[:8]))
                 json.dump(dict(property='C18', kind='key', query=qn, addresses=[hex(a) for a in addrs], what=what, native=out.strip(), statements=body), open(path_r, 'w'), indent=1)
                 fw.violations.append(dict(root=qn, msg=what, inputs=[hex(a) for a in addrs], replay=path_r, how=out.strip()))
                 print('VIOLATION property=C18 replay=%s' % path_r, flush=True)
@@ -163,7 +164,7 @@ def graph_obligations(fw):
 
     def one(sh):
         e, rm = sh
-        defs = ['VSTD_STR_CAP=7', 'VSTD_VEC_CAP=4', 'EDGES=%d' % e, 'REMOVE=%d' % rm]
+        defs = ['VSTD_STR_CAP=23', 'VSTD_VEC_CAP=4', 'EDGES=%d' % e, 'REMOVE=%d' % rm]
         name = 'g%d_%d' % (e, rm + 1)
         m = fw.build_model(name, HG, ['h_graph'], defines=defs)
         us = fw.unwindset(m, 'h_graph', [(r'^h_graph', 70)])
@@ -188,7 +189,7 @@ def run(fw):
                        'h_graph: 3 (quick) / 4 (thorough) variables; every subset of the possible equivalences; every queried pair']
     key_obligations(fw)
     # the real memoised function, addresses symbolic
-    defs = ['VSTD_STR_CAP=7']
+    defs = ['VSTD_STR_CAP=23']
     m = fw.build_model('c18c', HC, ['h_cache'], sources=[], defines=defs)
     mw = fw.build_model('c18cw', HC, ['h_cache'], sources=[], defines=defs + ['WITNESS'])
     r = fw.cbmc(m, 'h_cache', unwind=6, timeout=300 if fw.tier == 'quick' else 1200, label='h_cache[two scripted pairs, 4 symbolic addresses]', symbolic='four 47-bit addresses, two graph answers')
